@@ -160,6 +160,12 @@ def _run_one(m):
                 return dict(m, status='killed-other', detail=refuted[0])
             return dict(m, status='SURVIVED', detail='; '.join(errors) or 'all obligations discharged')
         bad = [n for r in res for n, v in r['bad']]
+        if m['expect'].startswith(('undecided', 'not-discharged', 'not verified')):
+            # recorded when the best the check could say about this breaking mutant was "no longer proved" (exit 2):
+            # as expected as long as it does not verify (a refutation is better than expected)
+            if bad or errors:
+                return dict(m, status='killed' if refuted else 'killed-other', detail=(refuted or bad or errors)[0])
+            return dict(m, status='SURVIVED', detail='all obligations discharged')
         if not bad and not errors:
             return dict(m, status='passes', detail='')
         return dict(m, status='FALSE-ALARM', detail='; '.join(bad[:2] + errors[:1]))
